@@ -519,12 +519,18 @@ impl Template {
                     };
                     new.push('{');
                     new.push_str(&buf);
-                    new.push(c);
                     buf.clear();
+                    // A newline ends the template line here as it does everywhere else
+                    if c != '\n' {
+                        new.push(c);
+                    }
                     parts.push(TemplatePart::Literal(TabExpandedString::new(
                         new.into(),
                         tab_width,
                     )));
+                    if c == '\n' {
+                        parts.push(TemplatePart::NewLine);
+                    }
                     (Literal, None)
                 }
                 (MaybeOpen, c) if c != '}' && c != ':' => (Key, Some(c)),
